@@ -1,39 +1,44 @@
-(* C13 - property theorems only.  The tables (Gen.feats, Gen.has_features, Gen.has_push,
-   Gen.real_impl, Gen.feature_members, Gen.all_features, Gen.default_rt) are regenerated from the
-   source on every run and the theorems are re-proved against them. *)
+(* C13 - property theorems only.  The tables (Gen.profiles: one table set per device profile,
+   Gen.feature_members, Gen.all_features, Gen.default_rt) are regenerated from the source on
+   every run and the theorems are re-proved against them. *)
 From Coq Require Import List Bool Arith String.
 From PV Require Import Common.Cases C01.Model C01.Spec C01.Proofs C13.Model C13.Proofs C13.Gen C13.ProofsGen.
 Import ListNotations.
 
-(* The property.  For EVERY list `order` of connected protocols (any subset of the five, in any
-   connect order, duplicates ignored as connect() does) and EVERY feature name f: if the features
-   interface of the device answers anything else than Unsupported - whatever the dynamic state of
-   the protocol that is asked - then every interface member f stands for is overridden by the
-   class some connected protocol registered, and the relayer routes a call of that member to such
-   a protocol for every complete priority order (a takeover only prepends to the order): it
-   cannot fail with "not supported" because nothing implements it.
-   Finite core: all 32 subsets x all feature names, decided by vm_compute (check_all_true). *)
-Theorem C13_features_backed : forall order f, In f features ->
-  feature_of default_rt feats has_features has_push push_updates order f <> FUnsupported ->
+(* The property.  For EVERY device profile (14: Apple TV generations, HomePods, AirPort Express,
+   third-party speaker, Mac; OS versions, AirPlay feature-flag variants, kinds of credentials,
+   AirPlay->MRP tunnel auto/forced/disabled), EVERY list `order` of SetupData yielded by the
+   real setup() generators under that profile (any subset, any order; of several SetupData for one
+   protocol the first is set up, as connect() does) and EVERY feature name f: if the features
+   interface answers anything else than Unsupported - whatever the dynamic state of the protocol
+   that is asked - then every interface member f stands for is overridden by the class some set-up
+   SetupData registered, and the relayer routes a call of that member to such a protocol for every
+   complete priority order (a takeover only prepends to the order).
+   Finite core: all profiles x all subsets of the yielded SetupData x all feature names, decided
+   by vm_compute (check_all_true). *)
+Theorem C13_features_backed : forall name us order f,
+  In (name, us) profiles -> (forall u, In u order -> In u us) -> In f features ->
+  feature_of_units default_rt push_updates order f <> FUnsupported ->
   forall i m, In (i, m) (members_of f) ->
-  (exists p, In p order /\ impl_b p i m = true) /\
+  (exists u, In u (eff order []) /\ impl_u u i m = true) /\
   forall ord, (forall p, In p ord) ->
-    exists q, find_instance (real_reg order i m) ord = Routed q /\ In q order /\ impl_b q i m = true.
+    exists q u, find_instance (reg_units (eff order []) i m) ord = Routed q /\
+                In u (eff order []) /\ u_proto u = q /\ impl_u u i m = true.
 Proof. exact features_backed. Qed.
 Print Assumptions C13_features_backed.
 
-(* the finite statement itself, bound visible: 32 subsets (the 31 non-empty ones and the empty
-   one) x every feature name *)
+(* the finite statement itself, bounds visible: 14 profiles, under each at most 8 yielded
+   SetupData hence at most 256 subsets (the sets of the five protocols are among them), every
+   feature name *)
 Theorem C13_all_subsets_all_features :
-  List.length (sublists all_protos) = 32 /\
-  forall S, In S (sublists all_protos) -> forall f, In f features ->
-    reportable_set S f = true -> forall im, In im (members_of f) -> backed S im = true.
+  List.length profiles = 14 /\
+  forall name us, In (name, us) profiles ->
+    List.length us <= 8 /\
+    forall S, In S (sublists us) -> forall f, In f features ->
+      reportable_set S f = true -> forall im, In im (members_of f) -> backed S im = true.
 Proof.
-  split; [reflexivity|]. intros S IS f If R im Im.
-  pose proof check_all_true as C. unfold check_all in C.
-  pose proof (proj1 (forallb_forall _ _) C S IS) as C1. cbv beta in C1.
-  pose proof (proj1 (forallb_forall _ _) C1 f If) as C2. cbv beta in C2. rewrite R in C2.
-  exact (proj1 (forallb_forall _ _) C2 im Im).
+  split; [exact profiles_count|]. intros name us I. split; [exact (units_bound name us I)|].
+  exact (check_profile_spec us (check_all_spec name us I)).
 Qed.
 Print Assumptions C13_all_subsets_all_features.
 
@@ -61,26 +66,36 @@ Theorem C13_order_independent : forall prio feats has_features has_push pu o1 o2
 Proof. exact feature_of_order_independent. Qed.
 Print Assumptions C13_order_independent.
 
+(* Of several SetupData for the same protocol exactly one is set up, so "the unit of a protocol"
+   is well defined for every order. *)
+Theorem C13_one_unit_per_protocol : forall order u, In u (eff order []) ->
+  In u order /\ unit_of (eff order []) (u_proto u) = Some u.
+Proof. intros order u I. split; [exact (eff_subset order [] u I)|exact (eff_unit_of order [] u I)]. Qed.
+Print Assumptions C13_one_unit_per_protocol.
+
 (* The generated tables are well formed: the priority list is the documented one (so complete),
-   every feature name stands for at least one member, every listed feature is a feature name,
-   every registered object is a truthy instance of its base interface. *)
+   every feature name stands for at least one member, every listed feature is a feature name and
+   every registered object is a truthy instance of its base interface - under every profile. *)
 Theorem C13_generated_tables :
   (default_ast = text_default /\ default_rt = text_default) /\
   (forall f, In f features -> members_of f <> []) /\
-  (forall p f, In f (feats p) -> In f features) /\
-  real_truthy && real_subclass = true.
+  (forall name us u, In (name, us) profiles -> In u us ->
+     u_ok u = true /\ forall f, In f (u_feats u) -> In f features).
 Proof.
   split; [exact gen_prio|]. split.
   - intros f If E. pose proof (proj1 (forallb_forall _ _) gen_members_nonempty f If) as H.
     cbv beta in H. rewrite E in H. discriminate.
-  - split; [|exact gen_real_conforming]. intros p f If.
-    assert (Ip : In p all_protos) by (destruct p; simpl; tauto).
-    pose proof (proj1 (forallb_forall _ _) gen_feats_known p Ip) as H.
-    apply memf_In. exact (proj1 (forallb_forall _ _) H f If).
+  - exact units_wf.
 Qed.
 Print Assumptions C13_generated_tables.
 
-(* Non-vacuity: a feature that IS reported for a concrete set, and one that is not. *)
+(* Non-vacuity: under some profile a feature IS reported for a concrete set of units and is
+   not for a smaller one; the tunnel profiles really contain an MRP unit yielded by AirPlay. *)
 Example C13_ex_reported :
-  exists f, In f features /\ reportable_set [AirPlay; RAOP] f = true /\ reportable_set [AirPlay] f = false.
-Proof. exists push_updates. vm_compute. repeat split. tauto. Qed.
+  existsb (fun pr => reportable_set (snd pr) push_updates && negb (reportable_set [] push_updates)
+                     && negb (reportable_set (firstn 1 (snd pr)) 38)) profiles = true.
+Proof. vm_compute. reflexivity. Qed.
+
+Example C13_ex_tunnel :
+  existsb (fun pr => existsb (fun u => proto_eqb (u_src u) AirPlay && proto_eqb (u_proto u) MRP) (snd pr)) profiles = true.
+Proof. vm_compute. reflexivity. Qed.
